@@ -175,8 +175,13 @@ def run_calls(pexpect, which, sim, calls, use_poll=False):
     """calls: [(size, t0)]; returns observations [[res], [buf, open, alive], sched_left]"""
     c, ctxm = make_reader(pexpect, which, sim, use_poll)
     out = []
+    c._verif_timeout_changed = None
+    own = [12.5, 7.25, 3.5, None, 40.0]
     with ctxm:
-        for size, t0 in calls:
+        for i, (size, t0) in enumerate(calls):
+            if which == 2:
+                # the application changes the socket's own timeout between reads: each read must leave it as it found it
+                c.socket._timeout = own[i % len(own)]
             try:
                 d = c.read_nonblocking(size, timeout=0 if t0 else 5)
                 r = [0, d]
@@ -187,6 +192,8 @@ def run_calls(pexpect, which, sim, calls, use_poll=False):
             except BlockingIOError:
                 r = [3]
             out.append([r, sim.state(), len(sim.sched)])
+            if which == 2 and c.socket.gettimeout() != own[i % len(own)] and c._verif_timeout_changed is None:
+                c._verif_timeout_changed = (own[i % len(own)], c.socket.gettimeout())
     if which == 1:
         for f in c._verif_fds:
             try:
